@@ -45,7 +45,7 @@ def some(rng, seq, default):
     return rng.choice(seq) if seq else default
 
 
-def rand_op(rng, j, nn=6, weights=None):
+def rand_op(rng, j, nn=6, weights=None, force=None):
     """one abstract op given the current projected state j"""
     nodes, edges = j["nodes"], j["edges"]
     names = [
@@ -60,7 +60,7 @@ def rand_op(rng, j, nn=6, weights=None):
     ]
     if weights:
         names = [(n, weights.get(n, w)) for n, w in names]
-    name = rng.choices([n for n, _ in names], [w for _, w in names])[0]
+    name = force or rng.choices([n for n, _ in names], [w for _, w in names])[0]
     anynode = lambda: rng.randrange(nn) if rng.random() < 0.35 or not nodes else rng.choice(nodes)  # noqa: E731
     anyedge = lambda: rand_id(rng, j) if rng.random() < 0.25 or not edges else rng.choice(edges)  # noqa: E731
     if name == "add_node":
@@ -163,7 +163,7 @@ def rand_op(rng, j, nn=6, weights=None):
 
 
 def run_history(hid, rng, length, *, gamma=None, nn=6, cls=xgi.Hypergraph, call=hg.call,
-                proj=hg.proj, gen=rand_op, start_ops=()):
+                proj=hg.proj, gen=rand_op, start_ops=(), obs=None):
     """Execute one random history; returns the list of trace records."""
     g = gamma or family(rng.randrange(6))
     H = cls()
@@ -178,10 +178,13 @@ def run_history(hid, rng, length, *, gamma=None, nn=6, cls=xgi.Hypergraph, call=
         if res == "ok":
             g = g2
         post, postanom = proj(H, g)
-        recs.append({
+        rec = {
             "rid": f"{hid}.{seq}", "gamma": gname, "pre": pre, "preanom": preanom, "op": op,
             "res": res, "warn": nwarn, "post": post, "postanom": postanom,
-        })
+        }
+        if obs:
+            rec.update(obs(H, g, post, rng) if not postanom else obs(None, g, {"nodes": [], "e2n": []}, rng))
+        recs.append(rec)
         seq += 1
         if postanom:
             break  # the object can no longer be projected faithfully
